@@ -66,6 +66,12 @@ func GenOD(w *World, prof ODProfile) *Scenario {
 	for i := 0; i < nT; i++ {
 		g.Templates = append(g.Templates, genTemplateSpec(w, og, osProf, i))
 	}
+	if prof.Slices {
+		for i, t := range g.Templates {
+			holder := store.Obj{"kind": og.Kind, "metadata": map[string]any{"name": fmt.Sprintf("od-1-t%d", i)}, "spec": t}
+			sliceSet(w, og, holder)
+		}
+	}
 	wl := &WorkloadAgent{Cluster: "mgmt", Policy: map[store.Key]string{}, Budget: s.Intn(8, "workload-budget")}
 	og.Workload = wl
 	if prof.NeverReady {
